@@ -359,6 +359,23 @@ def register(I):
                     return name
         return a[0]
 
+    @pat(r"^<.* as std::str::FromStr>::from_str$")
+    def _strum_from_str(I, a, cc):
+        # strum::EnumString on a repo enum (inverse of the AsRefStr model above); anything else has its own impl item or is unsupported
+        m = re.match(r"^<(.*) as std::str::FromStr>::from_str$", cc.norm)
+        ty = m.group(1).split("::")[-1] if m else ""
+        ed = I.p.src.enum_def(ty)
+        attrs = " ".join(I.p.src.enum_attrs.get(ty, []))
+        text = deref(a[0])
+        if ed is None or "EnumString" not in attrs or not isinstance(text, str):
+            raise Unsupported("FromStr for %s" % cc.norm)
+        from .intr_serde import snake
+        for name, d, payload in ed:
+            key = snake(name) if ("serialize_all" in attrs and "snake_case" in attrs) else name
+            if key == text and not payload:
+                return ok(Enum(ty, d, [], name))
+        return err(Opaque("strum::ParseError::VariantNotFound"))
+
     @pat(r"^<.* as std::borrow::Borrow(Mut)?>::borrow(_mut)?$")
     def _borrow(I, a, cc):
         v = deref(a[0])
@@ -897,6 +914,11 @@ def register(I):
             return v
         if dst.startswith("PathBuf") or dst.startswith("OsString"):
             return v
+        fb = getattr(I, "convert_fallback", None)   # models of foreign crates registered by a driver (props/sqlite.py)
+        if fb is not None:
+            r = fb(I, v, src, dst)
+            if r is not NotImplemented:
+                return r
         raise Unsupported("From<%s> for %s" % (src, dst))
 
     @pat(r"^<.* as std::convert::TryFrom>::try_from$", r"^<.* as std::convert::TryInto>::try_into$")
